@@ -149,3 +149,73 @@ def common_classes(b, rl, hl, costs):
     if has_post_eos_garbage(b):
         cl.append("post_eos_garbage")
     return cl
+
+
+# ---------------------------------------------------------------- long, structured pairs
+
+
+@st.composite
+def edited_pair(draw, max_len, alphabet):
+    """A reference and a hypothesis derived from it by runs of deletions, insertions and
+    substitutions at generated positions (so optimal alignments contain long edit runs
+    anywhere, including across internal block boundaries of an implementation)."""
+    L = draw(st.integers(max_len // 2, max_len))
+    ref = draw(st.lists(st.integers(0, alphabet - 1), min_size=L, max_size=L))
+    hyp = []
+    i = 0
+    nops = draw(st.integers(0, 6))
+    ops = sorted(draw(st.lists(st.tuples(st.integers(0, max(L - 1, 0)), st.sampled_from(["del", "del", "ins", "sub"]),
+                                         st.integers(1, 5)), min_size=nops, max_size=nops)))
+    k = 0
+    while i < L:
+        if k < len(ops) and ops[k][0] <= i:
+            _, kind, n = ops[k]
+            k += 1
+            if kind == "del":
+                i += n
+            elif kind == "ins":
+                hyp.extend(draw(st.lists(st.integers(0, alphabet - 1), min_size=n, max_size=n)))
+            else:
+                for _ in range(n):
+                    if i < L:
+                        hyp.append((ref[i] + 1) % max(alphabet, 2))
+                        i += 1
+            continue
+        hyp.append(ref[i])
+        i += 1
+    return ref, hyp[: max_len + 8]
+
+
+@st.composite
+def long_batch(draw, tier, max_n=3):
+    big = tier == "thorough"
+    max_len = draw(st.sampled_from([20, 40] if not big else [20, 40, 70, 100]))
+    N = draw(st.integers(1, max_n))
+    A = draw(st.integers(2, 5))
+    eos_kind = draw(st.sampled_from(["none", "outside", "outside"]))
+    pairs = [draw(edited_pair(max_len, A)) for _ in range(N)]
+    if eos_kind == "none":
+        # without eos every row is counted in full: equalise lengths by repeating the pair structure
+        R = max(len(p[0]) for p in pairs)
+        H = max(len(p[1]) for p in pairs)
+        H = max(H, 1)
+        refs = [p[0] + draw(st.lists(st.integers(0, A - 1), min_size=R - len(p[0]), max_size=R - len(p[0]))) for p in pairs]
+        hyps = [p[1] + draw(st.lists(st.integers(0, A - 1), min_size=H - len(p[1]), max_size=H - len(p[1]))) for p in pairs]
+        eos = None
+    else:
+        eos = A
+        R = max(len(p[0]) for p in pairs) + draw(st.integers(0, 2))
+        H = max(max(len(p[1]) for p in pairs) + draw(st.integers(0, 2)), 1)
+        refs, hyps = [], []
+        for r, h in pairs:
+            rr = list(r)
+            if len(rr) < R:
+                rr.append(eos)
+                rr += draw(st.lists(st.integers(-1, A), min_size=R - len(rr), max_size=R - len(rr)))
+            hh = list(h)
+            if len(hh) < H:
+                hh.append(eos)
+                hh += draw(st.lists(st.integers(-1, A), min_size=H - len(hh), max_size=H - len(hh)))
+            refs.append(rr)
+            hyps.append(hh)
+    return {"N": N, "R": R, "H": H, "A": A, "eos": eos, "eos_kind": eos_kind, "refs": refs, "hyps": hyps}
